@@ -60,6 +60,21 @@ func witnesses(thorough bool) []Scenario {
 			Op{K: "recv", C: 0}, Op{K: "recv", C: 0})
 		out = append(out, Scenario{Kind: "witness-high-woken", Hcap: 1, Lcap: 1, NTopics: 1, NClients: 2, Ops: ops})
 	}
+	// Close of a client that never subscribed closes it (fixed finding 2): its sends fail, its
+	// wait returns, its recv channel is closed, a second Close and a late Sub do nothing
+	out = append(out, Scenario{Kind: "witness-close-unsubscribed", Hcap: 3, Lcap: 2, NTopics: 1, NClients: 2, Ops: []Op{
+		{K: "close", C: 0},
+		{K: "new", C: 0, O: 1}, {K: "send", C: 0, O: 1, Hi: true, Mode: -1},
+		{K: "wait", C: 0, O: 1, Timed: false},
+		{K: "recv", C: 0},
+		{K: "close", C: 0},
+		{K: "sub", C: 0, T: 0},
+		{K: "new", C: 0, O: 2}, {K: "send", C: 0, O: 2, Hi: false, Mode: -1},
+		{K: "new", C: 1, O: 3}, {K: "send", C: 1, O: 3, Hi: true, Mode: 0},
+		{K: "recv", C: 0},
+		{K: "closeq"},
+		{K: "new", C: 1, O: 4}, {K: "send", C: 1, O: 4, Hi: true, Mode: -1},
+	}})
 	// request / reply round trip, message recycled correctly
 	out = append(out, Scenario{Kind: "witness-roundtrip", Hcap: 2, Lcap: 2, NTopics: 1, NClients: 2, Ops: []Op{
 		{K: "sub", C: 0, T: 0},
@@ -179,14 +194,9 @@ func (g *gen) next(e *exec, v *view) (Op, bool) {
 			if g.step < 5 {
 				continue
 			}
-			c := r.Intn(g.sc.NClients)
-			if kind == "guarded" { // closing a client that never subscribed is open finding 2
-				if len(g.subs) == 0 {
-					continue
-				}
-				c = hlib.Pick(r, g.subs)
-			}
-			return Op{K: "close", C: c}, true
+			// any client, subscribed or not (fixed finding 2: Close of a client that never
+			// subscribed used to do nothing)
+			return Op{K: "close", C: r.Intn(g.sc.NClients)}, true
 		default:
 			if g.step < 6 || v.qClose {
 				continue
